@@ -20,8 +20,22 @@ def errclass(e):
     return "Crash:" + type(e).__name__
 
 
+DRIVER = "builder"
+
+
 def build_tree(docs, safes=None, texts=None):
-    """Builder().add_source(text_i, safe=s_i)... .build() -> merged ConfigDict (or raises)."""
+    """Builder().add_source(text_i, safe=s_i)... .build() -> merged ConfigDict (or raises).
+    With DRIVER == "cmdline", documents of the shape process_cmdline produces are given as inline
+    `a.b[i].c=value` options to Config.build_from_cmdline (the real grammar is on the path)."""
+    if DRIVER == "cmdline" and any(S.is_override_doc(d) for d in docs[1:]):
+        from awesomeyaml.config import Config
+        srcs = []
+        for i, d in enumerate(docs):
+            if i >= 1 and S.is_override_doc(d):
+                srcs.append(S.override_option(d))
+            else:
+                srcs.append("---\n" + (texts[i] if texts is not None else S.render_doc(d)))
+        return Config.build_from_cmdline(*srcs).ayns.source
     from awesomeyaml.builder import Builder
     b = Builder()
     for i, d in enumerate(docs):
@@ -51,12 +65,26 @@ def stage_outcomes(docs, safes=None, full=True):
     return outs
 
 
+def err_event(o):
+    """what is logged for a failed stage: the error class and, where the message names a node path
+    ("Node 'a.b[0]' ... requires that the destination already exists"), that path"""
+    import re
+    ev = {"err": o["err"]}
+    m = re.search(r"Node '([^']*)' \(source file", o.get("msg", "") or "")
+    if m:
+        try:
+            ev["what"] = P.path_keys(m.group(1))
+        except Exception:
+            pass
+    return ev
+
+
 def history_trace(tid, docs, safes=None):
     safes = safes if safes is not None else [True] * len(docs)
     ev = [{"e": "AddSource", "sd": d, "safe": bool(s)} for d, s in zip(docs, safes)]
     outs = stage_outcomes(docs, safes)
     for j, o in enumerate(outs):
-        o2 = o if "err" not in o else {"err": o["err"]}
+        o2 = o if "err" not in o else err_event(o)
         ev.append({"e": "FlattenFirst" if j == 0 else "MergeStage", "acc": o2})
     if outs and "err" not in outs[-1]:
         ev.append({"e": "Finish"})
